@@ -141,3 +141,66 @@ def run(ck, n, seed):
             stats["coerced" if coerced else "plain"] += 1
     ck.log("autoderef tie: %d references %s, %d differences" % (len(cs), dict(stats), bad))
     return len(cs), dict(stats), bad
+
+
+def run_assign(ck, n, seed):
+    """the same for the TARGET of an assignment (typer.rs analyze_assignment_steps = Model/AssignSteps.v): `b<path> = value;`
+    for paths that end at an i32 / i64 / u8 scalar"""
+    rng = random.Random(seed)
+    cs = []
+    for i in range(n):
+        kind, bt = BASES[i % len(BASES)]
+        suffix, final = ty_after(bt, rng, None)
+        core = final
+        while core.startswith("&") and not core.startswith("&[]"): core = core[1:]
+        if core not in ("i32", "i64", "u8", "char8"): continue
+        if not suffix and kind == "param" and not bt.startswith("&"): continue          # a by-value parameter is not assignable
+        params = (["b: %s" % bt] if kind == "param" else [])
+        val = "'c'" if core == "char8" else "1"
+        body = ("\tvar b: %s;\n" % bt if kind == "local" else "") + "\tb%s = %s;\n" % (suffix, val)
+        src = DECLS + "fn f(%s)\n{\n%s}\nfn main()\n{\n}\n" % (", ".join(params), body)
+        cs.append(("as%d" % i, src, dict(kind=kind, base=bt, steps=re.findall(r"\[\d+\]|\.\w+", suffix), ref="b%s" % suffix)))
+    impl = C.run_harness("typed", [(c[0], c[1]) for c in cs], ck.work + "/astie", timeout=1800)
+    items, meta = [], {}
+    stats = collections.Counter(); bad = 0
+    for cid, src, info in cs:
+        f = impl.get(cid, ["missing"])
+        if not f[0].startswith("ok"):
+            if f[0].startswith("err codes="): stats["rejected"] += 1
+            else:
+                stats["failed"] += 1
+                ck.violation(C.failure_key(f[0]), "the typer failed on the assignment `%s = ..` (base %s): %s" % (info["ref"], info["base"], f[0][:160]), src)
+            continue
+        tree = parse(f[1])
+        structs = [d for d in tree[1:] if isinstance(d, list) and d[0] == "struct"]
+        fns = [d for d in tree[1:] if isinstance(d, list) and d[0] == "fn"]
+        if len(structs) != 2 or not fns: stats["unexpected-tree"] += 1; continue
+        if len(structs[0][2]) - 1 != len(MEMBERS): structs = [structs[1], structs[0]]
+        sid, tid = structs[0][1], structs[1][1]
+        mids = structs[0][2][1:] + structs[1][2][1:]
+        mtys = [m[2] for m in MEMBERS] + [m[2] for m in TMEMBERS]
+        members = " ".join("(%s %s)" % (mid, mt.replace("@S", "(struct %s)" % sid).replace("@T", "(struct %s)" % tid)) for mid, mt in zip(mids, mtys))
+        name_to_id = dict(zip([m[0] for m in MEMBERS], structs[0][2][1:])); name_to_id.update(dict(zip([m[0] for m in TMEMBERS], structs[1][2][1:])))
+        f_fn = fns[0]
+        asg = list(find_all(f_fn, "assign"))
+        if not asg: stats["no-assignment"] += 1; continue
+        ref = asg[0][1]
+        if info["kind"] == "param": base = show(f_fn[2][1][2])
+        else:
+            vars_ = list(find_all(f_fn, "var"))
+            base = show(vars_[0][3]) if vars_ else "?"
+        if "!" in base or "?" in base: stats["untyped"] += 1; continue
+        real_steps = " ".join("elem" if s[0] == "elem" else "(mem %s)" % s[1] if s[0] == "mem" else s[0] for s in ref[3:])
+        real = "ok steps=[%s] addr=%s" % (real_steps, ref[2])
+        msteps = " ".join("e" if s.startswith("[") else "(m %s)" % name_to_id[s[1:]] for s in info["steps"])
+        items.append(("assignsteps", cid, "(as %s (steps %s) 0 (members %s))" % (base, msteps, members)))
+        meta[cid] = (real, src, info)
+    model = C.run_model(items, ck.work + "/astie")
+    for cid, (real, src, info) in meta.items():
+        m = model.get(cid, "MODEL-MISSING")
+        stats["compared"] += 1
+        if m != real:
+            bad += 1
+            ck.violation("tie-broken:assignment-steps", "the typer elaborates the assignment target `%s` (base %s) as [%s]; Model/AssignSteps.v (assignment_steps) says [%s]" % (info["ref"], info["base"], real, m), "source:\n%s" % src)
+    ck.log("assignment-steps tie: %d targets %s, %d differences" % (len(cs), dict(stats), bad))
+    return len(cs), dict(stats), bad
